@@ -106,6 +106,7 @@ def run(ctx: Ctx) -> None:
     fetch_and_low_power(ctx, py, rs)
     pointer_destination_conflict(ctx, py, rs, rows)
     ir_frame(ctx, rs, rows, ok_base)
+    exchange_store_order(ctx, rs, rows, ok_base)
     from .c01 import lookahead
     lookahead(ctx, py, rule="C06.9/lookahead-isolation", why="the Rust core decodes one instruction from the bytes at PC and never looks at what follows it, so the cores would disagree on length and effect")
     ctx.extra["exhaustive"] = True
@@ -504,3 +505,66 @@ def ir_frame(ctx: Ctx, rs: RustProgram, rows: dict, ok_base: list) -> None:
                                   f"the Rust IR arm pushes `{expr_text(x['args'][3])[:60]}` computed after the arm already wrote machine state (statement {first_write}): the frame may hold a new value", f"{rs_file()}:{arm['ln']}")
     ctx.need(npush == 3, f"Rust IR arm performs {npush} pushes, expected 3")
     ctx.instance("C06.11/ir-frame", "IR: stacked PC/F/IMR are entry values in both cores (Python IL read-after-write; Rust statement order)", n + npush, 4)
+
+
+def exchange_store_order(ctx: Ctx, rs: RustProgram, rows: dict, ok_base: list) -> None:
+    """EX / EXW / EXP on two memory operands whose byte ranges overlap: the operand stored *last* wins the shared bytes.  Both cores must
+    store in the same order.  Python: in the IL of the two-internal-memory forms the first store goes to the operand encoded first
+    (its address carries the first operand byte).  Rust: in the exchange arm the first store_traced goes to `decoded.mem`, the
+    second to `decoded.mem2`."""
+    from ..isa_sweep import Sweeper
+    from ..rsfacts import walk as rs_walk
+    from ..pyfacts import Term as _T
+    sw = Sweeper()
+    n = 0
+    py_first = set()
+    for op, r in sorted(rows.items()):
+        if r.cls not in ("EX", "EXW", "EXP") or len(r.ops) != 2 or not all(o.ctor.startswith("IMem") for o in r.ops):
+            continue
+        c = sw.run_case(None, op, None, ("lift",))
+        if c.status != "ok" or c.lift_exc:
+            continue
+        stores = [st for st in c.il_terms if isinstance(st, _T) and st.ctor == "store"]
+        if len(stores) != 2:
+            continue
+        n += 1
+        first_syms = {b[0] for t in ilfacts_walk(stores[0].args[1]) for b in _bits_of(t)}
+        py_first.add("op1" if "in0" in first_syms else "op2" if "in1" in first_syms else "?")
+    ctx.need(n >= 2, f"two-internal-memory exchange rows not found ({n})")
+    # Rust: order of the stores in the (mem, mem2) branch of the exchange arm
+    arm = isa.rs_arm_for(rs, "Ex")
+    rs_order = []
+    for b in rs_walk(arm["body"]):
+        if b.get("k") == "call" and expr_text(b["f"]).split("::")[-1] == "store_traced" and len(b["args"]) >= 2:
+            a1 = expr_text(b["args"][1])
+            rs_order.append(a1)
+    binds = {}
+    for b in rs_walk(arm["body"]):
+        if b.get("k") == "let_cond" and b.get("pat", {}).get("k") == "p_tuple" and b["e"].get("k") == "tuple":
+            pats = [(p_.get("elems") or [{}])[0].get("name") if p_.get("k") == "p_tstruct" else None for p_ in b["pat"]["elems"]]
+            srcs = [expr_text(e_) for e_ in b["e"]["elems"]]
+            for p_, s_ in zip(pats, srcs):
+                if p_:
+                    binds[p_] = s_
+    mem_stores = [binds.get(a.split(".")[0]) for a in rs_order if binds.get(a.split(".")[0]) in ("decoded.mem", "decoded.mem2")]
+    ctx.need(len(mem_stores) >= 2, f"Rust exchange arm: the two memory stores were not recovered ({rs_order[:4]}, {binds})")
+    rs_first = "op1" if mem_stores[0] == "decoded.mem" else "op2"
+    if py_first != {rs_first}:
+        ctx.violation("C06.13/exchange-store-order", key_of(isa.INSTR_PY, "ExchangeInstruction", "memory operands stored in another order than the Rust core"),
+                      f"the Python IL of the memory-memory exchanges stores first to {sorted(py_first)}, the Rust arm first to {rs_first}: when the two operands overlap (EXW (10),(11)) the operand stored last wins the shared "
+                      "bytes, so the cores end with different memory", isa.INSTR_PY)
+    ctx.instance("C06.13/exchange-store-order", "memory-memory exchange rows: which operand is stored first, Python IL vs Rust arm", n + 1, 3)
+
+
+def ilfacts_walk(t: Any):
+    from .. import ilfacts
+    return ilfacts.walk(t) if hasattr(t, "ctor") else []
+
+
+def _bits_of(t: Any) -> list:
+    out = []
+    for a in getattr(t, "args", ()):
+        bits = getattr(a, "bits", None)
+        if bits is not None:
+            out += [b for b in bits if isinstance(b, tuple)]
+    return out
